@@ -9,6 +9,7 @@ import VaxisModel.Lemmas.Scrollbar
 import VaxisModel.Lemmas.DynList
 import VaxisModel.Lemmas.DynListInv
 import VaxisModel.Lemmas.DynCompose
+import VaxisModel.Lemmas.DynComposeGutter
 import VaxisModel.Model.Window
 
 namespace VaxisModel.Props.C19
@@ -536,6 +537,56 @@ theorem dyn_selected_on_top (cfg : Cfg) (hgap : 0 ≤ cfg.gap) (hs0 : List Nat) 
 example : Spec.Surface.topAt (Spec.Surface.layers true
       (Lemmas.DynCompose.dynTree 4 3 [] 0 (fun j => ⟨1, [⟨5 + 2 * j, 1, 0⟩]⟩) [⟨0, 0, 1⟩, ⟨1, 2, 1⟩]) 0 0
       { x0 := 0, y0 := 0, x1 := 10, y1 := 10 }) 0 2 = some ⟨7, 1, 0⟩ := by decide
+
+/-- **… and with the cursor gutter (`DrawCursor`)**: `Draw` replaces the selected child by the cursor
+    surface `cur` — full width, at column 0 and the child's row, its own buffer `curbuf` holding the `▐`
+    column — whose only child is the widget's surface at column `col` (= 2): the two-level tree
+    `dynTreeG`.  After any history, `SetCursor(c)` + `Draw`: the children split as `pre ++ ch :: post`
+    around the selected one, and at every position of the widget's rectangle inside the viewport and the
+    screen the top layer of the painter's algorithm is still the selected widget's own cell — the glyph
+    surface lies UNDER its child, no sibling overlaps. -/
+theorem dyn_selected_on_top_gutter (cfg : Cfg) (hgap : 0 ≤ cfg.gap) (hs0 : List Nat) (hlen0 : hs0.length < 2 ^ 63)
+    (ops : List HOp) (ho : ∀ op ∈ ops, HOpOk op) (hs : List Nat) (s : St)
+    (hrun : runH genFacts cfg hs0 init ops = .ok (hs, s))
+    (c W H hc : Nat) (hW : W ≠ 65535) (hH : H ≠ 65535) (hH1 : 1 ≤ H)
+    (hcur : hs[c]? = some hc) (hc1 : 1 ≤ hc)
+    (sw sh : Nat) (pbuf curbuf : List Model.Window.Cell) (col : Int) (lf : Nat → Lemmas.DynCompose.Leaf)
+    (hbuf : (lf c).buf.length = (lf c).w * hc) :
+    ∃ s' pre ch post, draw genFacts cfg hs (setCursor s c) W H = .ok (s', pre ++ ch :: post) ∧
+      ch.idx = c ∧ ch.height = hc ∧ Visible H ch ∧
+        ∀ (x y : Int), 0 ≤ x → x < sw → x < W → col ≤ x → x < col + (lf c).w →
+          0 ≤ y → y < sh → y < H → ch.row ≤ y → y < ch.row + (hc : Int) →
+          ∃ cell, (lf c).buf[(y - ch.row).toNat * (lf c).w + (x - col).toNat]? = some cell ∧
+            Spec.Surface.topAt (Spec.Surface.layers true (Lemmas.DynCompose.dynTreeG W H pbuf curbuf col lf pre ch post) 0 0
+              { x0 := 0, y0 := 0, x1 := sw, y1 := sh }) x y = some cell := by
+  obtain ⟨s', cs, hd, ch, hmem, hidx, hh, hvis⟩ :=
+    dyn_cursor_visible cfg hgap hs0 hlen0 ops ho hs s hrun c W H hc hW hH hH1 hcur hc1
+  have hU : (setCursor s c).top < U := by
+    have hrun' := hrun
+    rw [dyn_repairs_present] at hrun'
+    obtain ⟨_, s1, he, hi, _⟩ := runH_inv cfg hgap ops hs0 init hlen0 init_inv ho
+    rw [hrun'] at he; cases he
+    have hcn : c < hs.length := getElem?_lt hcur
+    have := (ensureScroll_inv s c hi.top_ok (by unfold U; omega)).top_ok
+    unfold U; unfold setCursor; omega
+  have hlay := (dyn_layout cfg hs (setCursor s c) W H s' cs hU hd).1
+  obtain ⟨pre, post, hsplit⟩ := List.append_of_mem hmem
+  subst hsplit
+  refine ⟨s', pre, ch, post, hd, hidx, hh, hvis, ?_⟩
+  intro x y hx0 hxs hxW hxc hxw hy0 hys hyH hyr hyb
+  have := Lemmas.DynCompose.child_on_top_gutter W H sw sh pbuf curbuf col lf cfg.gap hgap pre ch post hlay
+    (by rw [hidx, hh]; exact hbuf) x y hx0 hxs hxW hxc (by rw [hidx]; exact hxw) hy0 hys hyH hyr (by rw [hh]; exact hyb)
+  rw [hidx] at this
+  exact this
+
+/-- Non-vacuity of `dyn_selected_on_top_gutter`: two items of height 1, the second selected and wrapped
+    in the cursor surface (glyph 9 in column 0): the widget's cell (grapheme 7) is on top at (2, 1), the
+    glyph at (0, 1). -/
+example :
+    let t := Lemmas.DynCompose.dynTreeG 4 3 [] [⟨9, 1, 0⟩, ⟨0, 1, 0⟩, ⟨0, 1, 0⟩, ⟨0, 1, 0⟩] 2 (fun j => ⟨1, [⟨5 + 2 * j, 1, 0⟩]⟩)
+      [⟨0, 0, 1⟩] ⟨1, 1, 1⟩ []
+    Spec.Surface.topAt (Spec.Surface.layers true t 0 0 { x0 := 0, y0 := 0, x1 := 10, y1 := 10 }) 2 1 = some ⟨7, 1, 0⟩ ∧
+    Spec.Surface.topAt (Spec.Surface.layers true t 0 0 { x0 := 0, y0 := 0, x1 := 10, y1 := 10 }) 0 1 = some ⟨9, 1, 0⟩ := by decide
 
 /-- The same for `NextItem` / `PrevItem` from any state (when they move the cursor, i.e. return a
     command; the newly selected item has height ≥ 1). -/
